@@ -64,13 +64,62 @@ pub fn gen_c18(seed: u64, tier: Tier) -> Scenario {
     let mut instances: Vec<InstanceSpec> = Vec::new();
     while instances.len() < m {
         // identical-config pairs / triples at a fair rate: they share planner caches and tables keyed by config
-        if !instances.is_empty() && rng.chance(0.3) {
+        if !instances.is_empty() && rng.chance(0.45) {
             let k = rng.below(instances.len() as u64) as usize;
             let mut c = instances[k].clone();
-            c.home = rng.below(threads as u64) as u8;
+            if rng.chance(0.5) {
+                c.home = rng.below(threads as u64) as u8;
+            }
             if rng.chance(0.5) {
                 // same config, different data and history
                 c.signal = gen_signal(&mut rng);
+            }
+            if rng.chance(0.6) {
+                // a sibling: exactly one construction parameter differs, possibly only slightly (caches and memo
+                // tables keyed too coarsely hand it the other instance's tables)
+                let e = 10f64.powf(-rng.uniform(3.0, 10.0));
+                match rng.below(8) {
+                    0 => c.config.ratio *= 1.0 + e,
+                    1 => c.config.f_cutoff = (c.config.f_cutoff as f64 * (1.0 - e.max(1e-7))) as f32,
+                    2 => c.config.window = (c.config.window + 1 + rng.below(5) as u8) % 6,
+                    3 | 6 => {
+                        // neighbouring rate pair, only if the FFT blocks stay small
+                        fn g(a: usize, b: usize) -> usize {
+                            if b == 0 {
+                                a
+                            } else {
+                                g(b, a % b)
+                            }
+                        }
+                        let (ri, ro) = (c.config.rate_in, c.config.rate_out + 1);
+                        let d = g(ri, ro);
+                        if ri / d <= 200 && ro / d <= 200 {
+                            c.config.rate_out = ro;
+                        } else {
+                            // small neighbouring pairs instead: 480->440 vs 480->441 style
+                            let base = *rng.pick(&[(480usize, 440usize), (441, 480), (160, 147), (300, 200)]);
+                            if c.config.rate_in == base.0 && c.config.rate_out == base.1 {
+                                c.config.rate_out += 1;
+                            } else {
+                                c.config.rate_in = base.0;
+                                c.config.rate_out = base.1;
+                            }
+                            let d2 = g(c.config.rate_in, c.config.rate_out);
+                            if c.config.rate_in / d2 > 500 || c.config.rate_out / d2 > 500 {
+                                c.config.rate_out = base.1;
+                            }
+                        }
+                    }
+                    4 => c.config.interp = (c.config.interp + 1 + rng.below(3) as u8) % 4,
+                    5 => c.config.f32 = !c.config.f32,
+                    _ => c.config.oversampling = (c.config.oversampling + 1).min(2048),
+                }
+                if c.config.oversampling == 1 && c.config.interp >= 2 {
+                    c.config.interp = 1;
+                }
+            }
+            if rng.chance(0.3) {
+                c.born = rng.usize_in(1, 40) as u32;
             }
             instances.push(c);
             continue;
@@ -86,7 +135,8 @@ pub fn gen_c18(seed: u64, tier: Tier) -> Scenario {
         let mix = OpMix::swarm(&mut rng, n);
         let (_, ops, _) = gen_history(&mut rng, &cfg, &mix);
         let signal = if rng.chance(0.15) { gen_tiny(&mut rng) } else { gen_signal(&mut rng) };
-        instances.push(InstanceSpec { config: cfg, signal, ops, home: rng.below(threads as u64) as u8 });
+        let born = if rng.chance(0.2) { rng.usize_in(1, 40) as u32 } else { 0 };
+        instances.push(InstanceSpec { config: cfg, signal, ops, home: rng.below(threads as u64) as u8, born });
     }
     let total: usize = instances.iter().map(|i| i.ops.len()).sum();
     let p_mig = if rng.chance(0.2) { 0.0 } else { rng.uniform(0.05, 0.6) };
@@ -96,6 +146,12 @@ pub fn gen_c18(seed: u64, tier: Tier) -> Scenario {
         let mig: i8 = if rng.chance(p_mig) { rng.below(threads as u64) as i8 } else { -1 };
         schedule.push((0u8, slot, mig));
     }
+    let mut ctor_faults = Vec::new();
+    if rng.chance(0.3) {
+        for _ in 0..rng.usize_in(1, 3) {
+            ctor_faults.push((rng.usize_in(0, total.max(1)) as u32, rng.below(threads as u64) as u8, rng.below(4) as u8));
+        }
+    }
     let first = instances[0].clone();
     Scenario {
         property: "C18".into(),
@@ -104,7 +160,7 @@ pub fn gen_c18(seed: u64, tier: Tier) -> Scenario {
         config: first.config,
         signal: first.signal,
         ops: vec![],
-        twin: Twin::Threads { threads, instances, schedule },
+        twin: Twin::Threads { threads, instances, schedule, ctor_faults },
         sim_seconds: 0.0,
     }
 }
@@ -115,6 +171,7 @@ enum Cmd {
     Give(usize, usize),
     Take(usize, Box<AnyRunner>),
     Finish(usize),
+    FailCtor(u8),
     Quit,
 }
 
@@ -165,6 +222,17 @@ fn worker_loop(rx: Receiver<Cmd>, tx: Sender<Reply>) {
                     let _ = tx.send(Reply::Done);
                 }
             }
+            Cmd::FailCtor(kind) => {
+                // a constructor call that fails (documented Err, or capacity-overflow panic for absurd sizes)
+                let r = std::panic::catch_unwind(|| match kind {
+                    0 => rubato::FftFixedIn::<f64>::new((1usize << 61) + 1, 1, 1024, 1, 1).is_ok(),
+                    1 => rubato::FastFixedIn::<f32>::new(-1.0, 1.0, rubato::PolynomialDegree::Cubic, 64, 1).is_ok(),
+                    2 => rubato::FftFixedOut::<f32>::new(0, 44100, 64, 1, 1).is_ok(),
+                    _ => rubato::FftFixedInOut::<f64>::new(1, (1usize << 61) + 1, 1024, 1).is_ok(),
+                });
+                let _ = r;
+                let _ = tx.send(Reply::Done);
+            }
             Cmd::Quit => break,
         }
     }
@@ -196,8 +264,8 @@ fn solo_reference(file: &std::path::Path, k: usize) -> Result<Vec<String>, Strin
 
 pub fn eval_c18(sc: &Scenario) -> Outcome {
     let mut out = Outcome::default();
-    let (threads, instances, schedule) = match &sc.twin {
-        Twin::Threads { threads, instances, schedule } => (*threads as usize, instances.clone(), schedule.clone()),
+    let (threads, instances, schedule, ctor_faults) = match &sc.twin {
+        Twin::Threads { threads, instances, schedule, ctor_faults } => (*threads as usize, instances.clone(), schedule.clone(), ctor_faults.clone()),
         _ => return out,
     };
     let k = threads.max(1);
@@ -216,10 +284,14 @@ pub fn eval_c18(sc: &Scenario) -> Outcome {
     let mut next_op: Vec<usize> = vec![0; instances.len()];
     let mut alive: Vec<bool> = vec![true; instances.len()];
     let mut construct_err: Vec<Option<String>> = vec![None; instances.len()];
-    // construction, each on its home thread, one at a time
-    for (id, spec) in instances.iter().enumerate() {
-        let _ = txs[owner[id]].send(Cmd::Construct(id, Box::new(spec.clone())));
-        match rxs[owner[id]].recv() {
+    // construction, each on its home thread, one at a time; instances with born > 0 are constructed later,
+    // while the others are in the middle of their histories
+    let mut constructed: Vec<bool> = vec![false; instances.len()];
+    let homes: Vec<usize> = owner.clone();
+    let construct = |id: usize, alive: &mut Vec<bool>, construct_err: &mut Vec<Option<String>>, constructed: &mut Vec<bool>| {
+        constructed[id] = true;
+        let _ = txs[homes[id]].send(Cmd::Construct(id, Box::new(instances[id].clone())));
+        match rxs[homes[id]].recv() {
             Ok(Reply::ConstructErr(_, e)) => {
                 alive[id] = false;
                 construct_err[id] = Some(e);
@@ -229,15 +301,40 @@ pub fn eval_c18(sc: &Scenario) -> Outcome {
                 alive[id] = false;
             }
         }
+    };
+    for id in 0..instances.len() {
+        if instances[id].born == 0 {
+            construct(id, &mut alive, &mut construct_err, &mut constructed);
+        }
     }
+    let mut late = 0u64;
+    let mut faults_fired = 0u64;
     let mut migrations = 0u64;
     let mut steps = 0u64;
     let mut thread_switches = 0u64;
     let mut last_thread = usize::MAX;
     for (_, slot, mig) in schedule.iter() {
-        let remaining: Vec<usize> = (0..instances.len()).filter(|i| alive[*i] && next_op[*i] < instances[*i].ops.len()).collect();
+        for id in 0..instances.len() {
+            if !constructed[id] && (instances[id].born as u64) <= steps {
+                construct(id, &mut alive, &mut construct_err, &mut constructed);
+                late += 1;
+            }
+        }
+        for (at, th, kind) in ctor_faults.iter() {
+            if *at as u64 == steps {
+                let t = *th as usize % k;
+                let _ = txs[t].send(Cmd::FailCtor(*kind));
+                let _ = rxs[t].recv();
+                faults_fired += 1;
+            }
+        }
+        let remaining: Vec<usize> = (0..instances.len()).filter(|i| constructed[*i] && alive[*i] && next_op[*i] < instances[*i].ops.len()).collect();
         if remaining.is_empty() {
-            break;
+            if constructed.iter().all(|c| *c) {
+                break;
+            }
+            steps += 1;
+            continue;
         }
         let id = remaining[*slot as usize % remaining.len()];
         let th = owner[id];
@@ -266,6 +363,14 @@ pub fn eval_c18(sc: &Scenario) -> Outcome {
             }
         }
     }
+    for id in 0..instances.len() {
+        if !constructed[id] {
+            construct(id, &mut alive, &mut construct_err, &mut constructed);
+            late += 1;
+        }
+    }
+    out.cov.fault("F10_late_constructions", late);
+    out.cov.fault("F3_failing_constructor_calls", faults_fired);
     // collect traces
     let mut traces: Vec<Option<Trace>> = (0..instances.len()).map(|_| None).collect();
     for id in 0..instances.len() {
